@@ -5,6 +5,7 @@ package main
 import (
 	"fmt"
 	"go/token"
+	"go/types"
 	"sort"
 	"strings"
 
@@ -19,7 +20,7 @@ func init() {
 	})
 	register(&propDef{
 		id:      "C41",
-		explain: "Structural necessary conditions of 'TCPDialer bounds concurrent dials and returns ErrDialTimeout by the deadline': (E1) the dial semaphore is paired: when a concurrency channel exists every path to the dial has acquired a slot (fast or waiting send) and the release is deferred exactly on those paths; the waiting acquisition is a select that includes a timer armed with the remaining time, and its timeout path returns ErrDialTimeout without holding a slot; (R2) the context that bounds the connect is built from the absolute deadline (or from a duration computed after the slot was acquired), so time spent waiting for a slot is not granted again; (R3) every ErrDialTimeout (and every other dial error) leaves tryDial wrapped with the upstream address; (R4) the rotation loop of dial advances the address index after every failed attempt, is counted from a constant (one attempt per resolved address wherever the rotation starts) and stops on ErrDialTimeout; (R5) a failed connect is classified as a timeout by the deadline itself, not only by the context's state. (R6) every tryDial call in TCPDialer.dial is reached only after the once.Do whose body creates the concurrency channel, on every configuration branch; (R7) when address resolution fails, dial returns the raw resolver error only on a path that examined the deadline, and ErrDialTimeout wrapped with the upstream address otherwise; Not decided: real timing, resolver behaviour, the DNS cache (C37).",
+		explain: "Structural necessary conditions of 'TCPDialer bounds concurrent dials and returns ErrDialTimeout by the deadline': (E1) the dial semaphore is paired: when a concurrency channel exists every path to the dial has acquired a slot (fast or waiting send) and the release is deferred exactly on those paths; the waiting acquisition is a select that includes a timer armed with the remaining time, and its timeout path returns ErrDialTimeout without holding a slot; (R2) the context that bounds the connect is built from the absolute deadline (or from a duration computed after the slot was acquired), so time spent waiting for a slot is not granted again; (R3) every ErrDialTimeout (and every other dial error) leaves tryDial wrapped with the upstream address; (R4) the rotation loop of dial advances the address index after every failed attempt, is counted from a constant (one attempt per resolved address wherever the rotation starts) and stops on ErrDialTimeout; (R5) a failed connect is classified as a timeout by the deadline itself, not only by the context's state. (R6) every tryDial call in TCPDialer.dial is reached only after the once.Do whose body creates the concurrency channel, on every configuration branch; (R7) when address resolution fails, dial returns the raw resolver error only on a path that examined the deadline, and ErrDialTimeout wrapped with the upstream address otherwise; (R8) a TCPDialer routine that received the dial deadline hands it on to the resolving / connecting routines unchanged: followed through merges the argument is its own deadline parameter on every edge. Not decided: real timing, resolver behaviour, the DNS cache (C37).",
 		run:     runC41,
 	})
 }
@@ -502,6 +503,7 @@ func resolverTimeoutClassified(p *Prog, r *Report) {
 func runC41(p *Prog, r *Report) {
 	semaphoreCreatedBeforeDial(p, r)
 	resolverTimeoutClassified(p, r)
+	deadlinePassedOnUnchanged(p, r)
 	fn := p.Func("(*TCPDialer).tryDial")
 	if fn == nil {
 		r.Undecided("E1", "(*TCPDialer).tryDial", "not found")
@@ -875,4 +877,80 @@ func reachesValue(from ssa.Value, to ssa.Value) bool {
 		return false
 	}
 	return walk(to, 0)
+}
+
+// deadlinePassedOnUnchanged (C41.R8): the dial deadline is one absolute point in time for the whole dial. A TCPDialer
+// routine that received it as a parameter hands it on to the routines that resolve or connect (module functions
+// with a time.Time parameter) as it is: followed back through merges, the argument is the routine's own deadline
+// parameter on every edge. A later point in time substituted on some path ("give the shared DNS refresh at least
+// the default timeout") lets that step outlast the caller's timeout.
+func deadlinePassedOnUnchanged(p *Prog, r *Report) {
+	isTime := func(t types.Type) bool { return t.String() == "time.Time" }
+	n := 0
+	for _, fn := range p.funcsIn("") {
+		if fn.Blocks == nil || !(recvTypeName(fn) == "TCPDialer" || strings.Contains(strings.ToLower(fn.Name()), "tcpaddr")) {
+			continue
+		}
+		var own *ssa.Parameter
+		for _, prm := range fn.Params {
+			if isTime(prm.Type()) {
+				own = prm
+			}
+		}
+		if own == nil {
+			continue
+		}
+		allCalls(fn, func(b *ssa.BasicBlock, c ssa.CallInstruction) {
+			f := c.Common().StaticCallee()
+			if f == nil || !inModule(f) || f.Signature.Recv() != nil && c.Common().IsInvoke() {
+				return
+			}
+			for i, a := range c.Common().Args {
+				if !isTime(a.Type()) {
+					continue
+				}
+				// only arguments that land in a time.Time parameter of a module function
+				if i >= len(f.Params) || !isTime(f.Params[i].Type()) {
+					continue
+				}
+				n++
+				var foreign []string
+				seen := map[ssa.Value]bool{}
+				var walk func(v ssa.Value, d int)
+				walk = func(v ssa.Value, d int) {
+					if seen[v] || d > 8 {
+						return
+					}
+					seen[v] = true
+					switch x := v.(type) {
+					case *ssa.Parameter:
+						if x != own {
+							foreign = append(foreign, "parameter "+x.Name())
+						}
+					case *ssa.Phi:
+						for _, e := range x.Edges {
+							walk(e, d+1)
+						}
+					case *ssa.UnOp:
+						if al, ok := x.X.(*ssa.Alloc); ok && x.Op == token.MUL {
+							for _, ref := range *al.Referrers() {
+								if st, ok := ref.(*ssa.Store); ok && st.Addr == ssa.Value(al) {
+									walk(st.Val, d+1)
+								}
+							}
+							return
+						}
+						foreign = append(foreign, x.String())
+					default:
+						foreign = append(foreign, v.String())
+					}
+				}
+				walk(a, 0)
+				sort.Strings(foreign)
+				r.Check("R8", fmt.Sprintf("%s: the deadline handed to %s is the deadline it received, on every path", funcName(fn), f.Name()), len(foreign) == 0, p.Pos(c.Pos()),
+					"the argument can also be: "+strings.Join(foreign, "; ")+" - a point in time other than the caller's deadline bounds this step, so a resolver or connect that hangs keeps DialTimeout from returning by its timeout")
+			}
+		})
+	}
+	r.Floor("R8", "deadline arguments handed on by TCPDialer routines", n, 1)
 }
